@@ -366,6 +366,7 @@ func c02Loop(l *core.Ledger, r *rt, rl *replyLoop) {
 		okReps := fields["replies"] != nil && lenOf(fields["replies"], func(a ssa.Value) bool { return a == rl.replies })
 		l.Check(okErrs && okReps, "C02-T2", k2, pos, "errors = the loop's error slice, replies = len(reply map)", fmt.Sprintf("reported numbers do not add up: errors from the error slice: %v, replies = len(reply map): %v", okErrs, okReps))
 	}
+	ctxCaseCompletes(l, rl, "C02-T1")
 	if nEx == 0 {
 		l.Bad("C02-T1", key+"/no-incomplete", rl.fn.Pos(), "no completion reports Incomplete: exhaustion is never reported")
 	}
@@ -804,6 +805,74 @@ func c02T7(l *core.Ledger, r *rt) {
 	// evaluating its branches under that assumption (and "target is not a gorums type":
 	// the causes in question are Incomplete and the context package's errors).
 	isFn, unFn := r.fn("QuorumCallError.Is"), r.fn("QuorumCallError.Unwrap")
+	// an Unwrap that hands out the node errors makes errors.Is(err, X) true for whatever a node
+	// reported: an Incomplete outcome then also matches context.DeadlineExceeded when a node's dial
+	// timed out - the three outcomes can no longer be told apart
+	if unFn != nil && len(unFn.Blocks) > 0 && len(unFn.Params) == 1 {
+		e := unFn.Params[0]
+		leaks := false
+		var walk func(v ssa.Value, d int)
+		seenV := map[ssa.Value]bool{}
+		walk = func(v ssa.Value, d int) {
+			if v == nil || d > 8 || seenV[v] {
+				return
+			}
+			seenV[v] = true
+			if sx.Any(sx.Origins(v), sx.IsFieldNamed("errors", sx.IsParam(e))) {
+				leaks = true
+				return
+			}
+			switch x := v.(type) {
+			case *ssa.Call:
+				for _, a := range x.Call.Args {
+					walk(a, d+1)
+				}
+			case *ssa.Phi:
+				for _, ed := range x.Edges {
+					walk(ed, d+1)
+				}
+			case *ssa.MakeInterface:
+				walk(x.X, d+1)
+			case *ssa.Slice:
+				walk(x.X, d+1)
+			case *ssa.UnOp:
+				walk(x.X, d+1)
+			case *ssa.Alloc:
+				for _, ref := range *x.Referrers() {
+					if ia, ok := ref.(*ssa.IndexAddr); ok {
+						for _, r2 := range *ia.Referrers() {
+							if st, ok := r2.(*ssa.Store); ok {
+								walk(st.Val, d+1)
+							}
+						}
+					}
+					if st, ok := ref.(*ssa.Store); ok && st.Addr == ssa.Value(x) {
+						walk(st.Val, d+1)
+					}
+				}
+			}
+		}
+		sx.AllInstrs(unFn, func(_ sx.Node, in ssa.Instruction) {
+			switch x := in.(type) {
+			case *ssa.Return:
+				for _, res := range x.Results {
+					walk(res, 0)
+				}
+			case *ssa.Range:
+				if sx.Any(sx.Origins(x.X), sx.IsFieldNamed("errors", sx.IsParam(e))) {
+					leaks = true
+				}
+			case *ssa.Index:
+				walk(x.X, 0)
+			case *ssa.IndexAddr:
+				walk(x.X, 0)
+			}
+		})
+		if leaks {
+			l.Check(false, "C02-T7", "gorums.(QuorumCallError).Is", unFn.Pos(), "", "QuorumCallError.Unwrap hands out the node errors: errors.Is(err, X) is true for whatever any node reported (a dial that timed out: context.DeadlineExceeded), so an Incomplete outcome with a live context also matches the context errors - the outcomes can no longer be told apart")
+			return
+		}
+	}
 	if (isFn == nil || len(isFn.Blocks) == 0) && (unFn == nil || len(unFn.Blocks) == 0) {
 		tn := r.pkg.Types.Scope().Lookup("QuorumCallError")
 		if tn == nil {
@@ -1007,4 +1076,28 @@ func c02T7(l *core.Ledger, r *rt) {
 		pos = badPos
 	}
 	l.Check(ok && n > 0, "C02-T7", "gorums.(QuorumCallError).Is", pos, "Is answers true whenever the cause equals the target (evaluated under that assumption on every path)", "QuorumCallError.Is can answer something other than true although the cause equals the target (and no Unwrap hands the cause out): errors.Is(err, Incomplete) / errors.Is(err, ctx.Err()) no longer follow from the cause")
+}
+
+// ctxCaseCompletes: the context's end completes the call - from the ctx.Done()
+// case of the reply loop no path leads back to the wait.
+func ctxCaseCompletes(l *core.Ledger, rl *replyLoop, rule string) {
+	if !rl.hasCtx {
+		return
+	}
+	key := rl.key
+	comps := completions(rl)
+	selNode := sx.NodeOf(rl.sel)
+	isComp := func(n sx.Node) bool {
+		for _, c := range comps {
+			if c.at == n.Instr() {
+				return true
+			}
+		}
+		return false
+	}
+	if _, back := sx.Reach(sx.Node{B: rl.ctxEdge.To, I: -1}, func(n sx.Node) bool { return n == selNode }, sx.Query{BlockNode: func(n sx.Node) bool { return isComp(n) || sx.IsReturn(n) }}); back {
+		l.Bad(rule, key+"/ctx-completes", rl.sel.Pos(), "the case that observed the end of the call's context can go back to waiting without completing the call (a condition such as 'replies are still queued' in front of the completion): while that condition holds - a server stream refills the reply channel as fast as it is drained - the context's end is never acted upon")
+	} else {
+		l.OK(rule, key+"/ctx-completes", rl.sel.Pos(), "the ctx.Done() case always completes the call")
+	}
 }
